@@ -418,3 +418,41 @@ def check_C18(ctx):
             "grid in every text section, token drops / count changes / tree-text defects; all single faults (BFS), sampled "
             "double faults (-simulate); distinct = distinct fault lists",
             {})
+
+
+# --------------------------------------------------------------------------- C01
+
+def check_C01(ctx):
+    q = ctx.quick()
+    lab = label_table_json(ctx)
+    # MC: the composition laws are evaluated on every generated case inside Gen_Pipeline (FrameExact, AllStatesPresent,
+    # EmptyIsEmpty) on top of the Duration / Voice invariants checked here
+    mc(ctx, "Duration", S("mc", "MC_Duration.cfg"), S("mc", "MC_Duration.tla"), workers=8)
+    cases = gen(ctx, "Pipeline", S("gen", "Gen_Pipeline.cfg" if q else "Gen_Pipeline_thorough.cfg"), S("gen", "Gen_Pipeline.tla"),
+                workers=12, timeout=6000)
+    runs = [c for c in cases if c["kind"] == "run"]
+    replay_stage(ctx, "rendered-voices", "c01-replay", cases, extra_args=[lab], timeout=7200,
+                 distinct_key=lambda c: json.dumps([c.get("fam"), c.get("labels"), c.get("cond", {}).get("p"), c.get("cond", {}).get("align"), c.get("cond", {}).get("thr8")]))
+    cfgs = set((c["fam"]["nstream"], c["fam"]["stage"] > 0, c["fam"]["gv"], c["fam"]["nstate"]) for c in runs)
+    ctx.stage("configuration coverage", streams_x_lsp_x_gv_x_nstate=len(cfgs), runs=len(runs),
+              multi_result_cases=sum(1 for c in runs if not c["unique"]))
+    voices = perturbed_voices(ctx, 1 if q else 3, "all")
+    tpath = ctx.path("bundled.ndjson")
+    p = run_jbv(["c01-record", ctx.seed, 150 if q else 5000, 12 if q else 60, tpath] + voices, timeout=7200)
+    if p.returncode != 0:
+        log(p.stderr[-2000:])
+        raise ToolError("c01-record failed")
+    trace_stage(ctx, "synth", S("trace", "Trace_Laws.cfg"), S("trace", "Trace_Laws.tla"), tpath, reset_ev="__none__",
+                keyfn=lambda e, run: "bundled:%s:%s:%s" % (e.get("ev"), e.get("outcome", "")[:60], "nonfinite" if e.get("nf", -1) >= 0 else "law"))
+    ctx.assumptions += [
+        "stable range is recognised through the sufficient condition 1.05 (1+beta) max_theta |sum_{m>=1} c_m cos(m theta)| <= 4 on a 129-point grid "
+        "(trusted measurement on the hooked trajectories); on the bundled voice this is almost never satisfied, so there the finiteness clause is "
+        "enforced as 'a non-finite sample only after growth >= 1e100'; generated voices are inside the range by construction and must be finite",
+        "labels: corpus lines, shuffles and section-wise recombinations; structurally random labels for the no-panic clause",
+    ]
+    return ("model_checking",
+            "S->I: voice family {2,3 streams} x {mel-cepstral, LSP stage 1-2} x nstate x window sets x GV x tree shapes, 0..3 labels, "
+            "8 conditions (speeds, alignment marks, thresholds, beta, half tone, volume, GV weights, fperiod/rate overrides, 4 input forms): "
+            "outcome ok, exact length fperiod x F, finite, durations in the specification's set, voicing mask of the hooked log-F0 trajectory; "
+            "I->S: bundled voice + perturbed copies, random utterances and in-envelope conditions validated against Trace_Laws!SynthLaw",
+            {"voice_configurations": len(cfgs)})
